@@ -4,9 +4,11 @@
    order in which rayon really executed the work items; the model is run with
    that schedule and must produce the vector the implementation collected; the
    recorded schedule must be a permutation of the item indices (the hypothesis
-   of run_par_schedule_independent). *)
-From Coq Require Import String List Bool ZArith Arith.
-From GV Require Import Base.Outcome Model.GState Model.Par Run.Obs.
+   of run_par_schedule_independent).  A second pair of regions has FAILING items
+   (observation 63): the panic rayon re-raises must be the one the model's
+   region reports (the lowest failing index — rayon::join's rule). *)
+From Coq Require Import String Ascii List Bool ZArith Arith.
+From GV Require Import Base.Outcome Model.GState Model.Par Model.ParFns Run.Obs.
 Import ListNotations.
 Open Scope Z_scope.
 
@@ -23,13 +25,35 @@ Definition run_with (xs : list Z) (sched : list Z) : list Z :=
   | _ => [-1; -1; -1]
   end.
 
+(* failing work items (Model/ParFns.v): item i panics, with a payload that names i, iff xs[i] is
+   divisible by 7.  The model's region ([gather_par] under the REVERSED schedule, [gather_abort]-free,
+   and [run_plan] on a two-leaf plan whose right half runs first) reports the lowest failing index;
+   the harness reports the payload rayon really re-raised. *)
+Definition fail_site (i : nat) : string := string_of_list_ascii (repeat "x"%char i).
+Definition pprobe_f (ix : nat * Z) : outcome Z :=
+  if Z.eqb (Z.rem (snd ix) 7) 0 then Panic (fail_site (fst ix)) else Ok (probe_f (snd ix)).
+Definition failure_index (o : outcome (list Z)) : Z :=
+  match o with
+  | Ok _ => -1
+  | Panic s => Z.of_nat (String.length s)
+  | _ => -2
+  end.
+Definition panic_index_sched (xs : list Z) : Z :=
+  let items := combine (seq 0 (length xs)) xs in
+  failure_index (gather_par (rev (seq 0 (length xs))) pprobe_f items).
+Definition panic_index_plan (xs : list Z) : Z :=
+  let items := combine (seq 0 (length xs)) xs in
+  failure_index (run_plan (PFork (Nat.div2 (length xs)) true PSeq (PFork (Nat.pred (length xs)) true PSeq PSeq))
+                          pprobe_f items 0 (length items)).
+
 Definition obs_of (c : pcase) : list obs :=
   match c with
   | PProbe xs s1 s2 =>
     [ (60, [s1; s2], []);
       (61, [run_with xs s1; run_with xs s2], []);
       (62, [[if is_schedule (length xs) (map Z.to_nat s1) then 1 else 0;
-             if is_schedule (length xs) (map Z.to_nat s2) then 1 else 0]], []) ]
+             if is_schedule (length xs) (map Z.to_nat s2) then 1 else 0]], []);
+      (63, [[panic_index_sched xs; panic_index_plan xs]], []) ]
   end.
 
 Definition run (c : pcase) : list (list Z) := enc_all (obs_of c).
